@@ -145,6 +145,17 @@ func validateExported(c *Chain, appState []byte, st *Stats) error {
 	return nil
 }
 
+// govHoldsMoreThanDeposits: the balance of the governance module account differs from the sum of the
+// deposits of the stored proposals (the condition x/gov InitGenesis panics on).
+func govHoldsMoreThanDeposits(c *Chain) bool {
+	ctx := c.QueryCtx()
+	total := sdk.NewCoins()
+	for _, dep := range c.App.GovKeeper.GetAllDeposits(ctx) {
+		total = total.Add(dep.Amount...)
+	}
+	return !c.App.BankKeeper.GetAllBalances(ctx, ModuleAddr("gov")).IsEqual(total)
+}
+
 func TestC12(t *testing.T) {
 	st := StatsFor("C12")
 	rapid.Check(t, func(t *rapid.T) {
@@ -184,6 +195,13 @@ func TestC12(t *testing.T) {
 		}
 		if err := validateExported(a, appState, st); err != nil {
 			t.Fatalf("exported genesis (height %d) does not pass validation: %v\nhistory:\n%s", a.Height, err, jsonStr(d.log))
+		}
+		if FindingOpen("F-GOVFUNDS") && govHoldsMoreThanDeposits(a) {
+			// known finding: x/gov refuses to import a genesis in which its module account holds anything but the
+			// deposits of the proposals (the application lets that account receive coins); counted, the case ends
+			st.Exclude("F-GOVFUNDS")
+			st.Case(false, map[string]interface{}{"genesis": g, "history": d.log}, "excluded_governance_account_holds_other_coins")
+			return
 		}
 		// restored chain
 		var b *Chain
